@@ -10,14 +10,64 @@ BASELINE_CMD = ("cd /repo && /venv/bin/python -m pytest -ra -q -p no:cacheprovid
 
 TECH = 'deterministic simulation with fault injection (seeded schedules and fault plans over real code, fake zmq/clock/fs)'
 
+MQ_NOTE = ('Real zeromq.py / mq.py / filter.py run unmodified on a modelled libzmq (DESIGN.md 2.4: FIFO pipes, slow joiner, '
+           'HWM drops, PUSH backlog) with virtual time; oracles trust the provenance tokens test filters put into Frame.data '
+           'and the wire tap of the simulated network. Sampling, not enumeration: a clean batch is evidence, not proof.')
+
 CHECKS = {
     'C01': dict(level='exploration', ref='DESIGN.md 4 C01',
                 text='Seeded search over topologies, behaviours, subscription forms, interleavings and fault plans '
                      '(lost publishes, kills/restarts, partitions, delays): every frame set handed to process() of the '
                      'real Filter code is attributed to its publish events and checked for one id, exact topic set per '
-                     'source and a single root frame. A clean batch is evidence on the explored executions, not proof.',
-                note='Real zeromq.py/mq.py/filter.py on a modelled libzmq (DESIGN.md 2.4); oracle trusts the provenance '
-                     'tokens that test filters put into Frame.data and the wire tap of the fake network.'),
+                     'source and a single root frame.', note=MQ_NOTE),
+    'C02': dict(level='exploration', ref='DESIGN.md 4 C02',
+                text='Same runs as C01 (union of all MQ profiles incl. restarts of either side, stale and duplicated '
+                     'requests from the PUSH backlog): per consumer strictly increasing ids, at-most-once per publish '
+                     'event, byte-exact payload against the wire tap, topic map and hidden-topic rule.', note=MQ_NOTE),
+    'C03': dict(level='exploration', ref='DESIGN.md 4 C03',
+                text='Fault-free runs under the statement\'s own preconditions; the recorded process() input sequence of '
+                     'every filter must equal a functional reference model of the pipeline (world/model.py), element by '
+                     'element from frame 0, and deferred results must be evaluated exactly once at the moment of sending.',
+                note=MQ_NOTE),
+    'C04': dict(level='exploration', ref='DESIGN.md 4 C04',
+                text='A synchronized consumer stalls inside process() for 20-60 virtual seconds at a drawn frame (sole '
+                     'consumer / one of several / behind relays); for every publisher-consumer pair and every interval '
+                     'without requests the publishes are bounded by requests still dequeued + 1 and by 9 in absolute terms '
+                     'until the connection timeout.', note=MQ_NOTE),
+    'C05': dict(level='exploration', ref='DESIGN.md 4 C05',
+                text='Synchronized backbone plus ? / ?? listeners that are slow, stalled or killed (incl. the A..G '
+                     'ephemeral-rejoin topology): backbone sequences equal the reference model, steady-state inter-arrival '
+                     'gaps stay below G < connection timeout, ?? listeners own no request socket and send nothing, '
+                     'ephemeral sets are complete and non-decreasing.', note=MQ_NOTE),
+    'C06': dict(level='fault_enumeration', ref='DESIGN.md 4 C06',
+                text='One fault class per run (kill+restart of each filter with restart delay 0 / 200 ms / 1.4x timeout, '
+                     'stall or silent death of a non-required consumer, death and return of a required one) at drawn '
+                     'scheduling steps: progress at every live synchronized node within the bound H after the fault ends, '
+                     'no later gap beyond H, ordering oracle armed, publisher silent while a required output is dead.',
+                note=MQ_NOTE + ' Kill points are sampled (virtual time + step offset), not swept exhaustively.'),
+    'C07': dict(level='exploration', ref='DESIGN.md 4 C07',
+                text='Balanced split over 2-4 workers of drawn speeds and balanced rejoin, optional ?? watchers: on the wire '
+                     'each id leaves through exactly one output socket; at the rejoin single-source sets, strictly '
+                     'increasing ids, no frame twice.', note=MQ_NOTE),
+    'C08': dict(level='fault_enumeration', ref='DESIGN.md 4 C08',
+                text='One ending cause per run (exit()/exception at init/setup/k-th process/shutdown, injected socket error '
+                     'on send/recv, stop event, exit_after in three forms) at a drawn filter of chain/tee/rejoin with drawn '
+                     'propagate/obey policies per filter: lifecycle automaton, socket census, stop event, outcome, and exit '
+                     'propagation against a BFS model of the policies, exit_after timing.',
+                note=MQ_NOTE + ' Cause x policy x position space is sampled by seed (quick 1.5k runs), not enumerated. Two '
+                     'open known findings (filters deaf to announcements while blocked on the other channel).'),
+    'C10': dict(level='exploration', ref='DESIGN.md 4 C10',
+                text='Seeded operation histories (plus exhaustive enumeration to depth 3 quick / 4 thorough over a reduced '
+                     'alphabet) on the real Frame class against an executable reference model of pixels, aliasing, '
+                     'writability and jpg cache, checked after every step. Weakest fit for this technique family: no '
+                     'clock, fault or scheduler is involved, only history/interleaving of edits and view accesses.',
+                note='Real frame.py with cv2/numpy; model trusts cv2.cvtColor / imdecode as ground truth for conversions.',
+                technique='seeded history simulation against an executable reference model (no scheduler/faults involved)'),
+    'C18': dict(level='exploration', ref='DESIGN.md 4 C18',
+                text='Every ending of C08 with the real OpenFilterLineage attached (capturing client), its heartbeat thread '
+                     'a scheduler task so that every Event/Lock/emit interleaving with the run thread is a seeded choice, '
+                     'heartbeat interval 1-10 s against run lengths 0.3x-8x: START . RUNNING* . exactly one terminal, one '
+                     'run id, COMPLETE iff clean.', note=MQ_NOTE + ' OpenLineage transport is a capturing stub.'),
 }
 
 NOT_APPLICABLE = {
@@ -29,7 +79,7 @@ NOT_APPLICABLE = {
 }
 
 PENDING = {pid: 'check still under construction in this build (claimed in DESIGN.md; will move to checks[] when its machinery is committed)'
-           for pid in ('C02', 'C03', 'C04', 'C05', 'C06', 'C07', 'C08', 'C10', 'C13', 'C14', 'C15', 'C18')}
+           for pid in ('C13', 'C14', 'C15')}
 
 
 def build():
